@@ -53,6 +53,9 @@ def run_case(case):
         h = vloop.run_harness(case, d)
         poolcase.eval_c12(h, res)
         res.sig = poolcase.event_string(h)
+        res.obs("events", h.events[:60])
+        res.obs("transitions", h.transitions[:40])
+        res.obs("final_states", h.snapshots[-1]["states"] if h.snapshots else None)
         skipped = False
         for e in h.events:
             if e["kind"] == "cancel" and e.get("state_at_delivery") == "SUBMITTED":
